@@ -10,6 +10,8 @@ Purely syntactic (Python `ast`).  What it recognises:
   searches the implementation).
 * which `update_*` an `add_*` calls (and the constant class key it wraps its data in), which `add_*` an `update_*` calls,
   which `_get_*` helper a `get_*` calls (and the constant class it passes);
+* in `update_*`: is a `for`-loop variable rebound (`cls = cls.lower()`) and then used to index the argument dictionary again
+  (`rates[cls][element][charge][transition]`)?  (`pecReindexes`; any other family doing so is reported in `notes`);
 * for every `install_*`: the `repository.update_*` calls in source order and whether `repository_path` reaches them;
 * every other call of a function that has a `repository_path` parameter: does the caller pass its own on?
 """
@@ -185,6 +187,41 @@ def _template(fn, kind, notes):
     return dict(lits=lits, slots=slots, ext=ext, fmt=fmt)
 
 
+def _reindexes(fn):
+    """does the function rebind one of its for-loop variables and later index its first parameter with it?"""
+    if not fn.args.args:
+        return False
+    param = fn.args.args[0].arg
+    loopvars = set()
+    for n in ast.walk(fn):
+        if isinstance(n, ast.For):
+            for t in ast.walk(n.target):
+                if isinstance(t, ast.Name):
+                    loopvars.add(t.id)
+    def bound_names(t):
+        if isinstance(t, ast.Name):
+            return [t.id]
+        if isinstance(t, (ast.Tuple, ast.List)):
+            return [x for e in t.elts for x in bound_names(e)]
+        return []           # subscripts / attributes do not rebind a name
+    rebound = {x for n in ast.walk(fn) if isinstance(n, (ast.Assign, ast.AugAssign))
+               for tt in (n.targets if isinstance(n, ast.Assign) else [n.target]) for x in bound_names(tt)
+               if x in loopvars}
+    if not rebound:
+        return False
+    for n in ast.walk(fn):
+        if isinstance(n, ast.Subscript):
+            # root of the subscript chain
+            idx, v = [], n
+            while isinstance(v, ast.Subscript):
+                idx.append(v.slice)
+                v = v.value
+            if isinstance(v, ast.Name) and v.id == param:
+                if any(isinstance(i, ast.Name) and i.id in rebound for i in idx):
+                    return True
+    return False
+
+
 def _passes_root(call, defs):
     """does `call` hand the caller's `repository_path` to the callee's `repository_path` parameter?"""
     name = _callee_name(call)
@@ -219,7 +256,7 @@ def extract(repo=REPO):
     has_root = {n for n, d in defs.items() if ROOT in _params(d)}
 
     facts = dict(updWrites={}, updCalls={}, addWrites={}, addCalls={}, addFixed={}, getReads={}, getFixed={},
-                 installCalls={}, frontCalls=[], notes=notes)
+                 installCalls={}, frontCalls=[], pecReindexes=False, notes=notes)
 
     def calls_in(fn):
         cs = [c for c in ast.walk(fn) if isinstance(c, ast.Call) and _callee_name(c) in has_root]
@@ -233,6 +270,12 @@ def extract(repo=REPO):
         t = _template(fn, 'update', notes)
         if t:
             facts['updWrites'][lname] = t
+        if _reindexes(fn):
+            if lname == 'pec':
+                facts['pecReindexes'] = True
+            else:
+                notes.append('%s rebinds a loop variable and indexes its argument with it (not modelled)' % name)
+                facts['updWrites'].pop(lname, None)
         cs = [c for c in calls_in(fn) if _callee_name(c) in ADD]
         if len(cs) == 1:
             facts['updCalls'][lname] = ADD[_callee_name(cs[0])]
@@ -353,7 +396,7 @@ def to_lean(f):
                  ',\n   '.join('(%s, %s, %s)' % (_s(a), _s(b), 'true' if c else 'false') for a, b, c in f['frontCalls']))
     parts.append('def tables : Tables :=\n  { updWrites := updWrites, updCalls := updCalls, addWrites := addWrites, addCalls := addCalls,\n'
                  '    addFixed := addFixed, getReads := getReads, getFixed := getFixed, installCalls := installCalls,\n'
-                 '    frontCalls := frontCalls }')
+                 '    frontCalls := frontCalls, pecReindexes := %s }' % ('true' if f['pecReindexes'] else 'false'))
     parts.append('end Cherab.Gen.RepoPaths\n')
     return '\n\n'.join(p for p in parts if p != '')
 
